@@ -116,4 +116,14 @@ typedef unsigned int surface_t;
 struct occ_fn { int id; };
 extern _Bool g_occ[__CPROVER_constant_infinity_uint];
 static bool occupied_call(struct occ_fn *f, surface_t d) { (void)f; return g_occ[d]; }
+
+/* ---- div (no body in CBMC's library): C11 7.22.6.2 --------------------------------------------- */
+typedef struct { int quot; int rem; } verif_div_t;
+static verif_div_t verif_div(int n, int d)
+{
+  verif_div_t r;
+  r.quot = n / d;
+  r.rem = n % d;
+  return r;
+}
 #endif
